@@ -1473,3 +1473,66 @@ C01_ENCODE_1D = dict(
     raises=[("Mapping to ids failed", 6)],
 )
 ALL += [C01_VALID_IDS, C01_ENCODE_TREATMENTS, C01_ENCODE_1D]
+
+# Screen.__init__: the statements that encode names and doses to ids (py2gal body_slice; the observation-mask statements are
+# C12_INIT_*).  treatment_names / treatment_doses are 2-d arrays `(arr2 T)` = (shape[1], rows); the three encoder calls run
+# the translated encoders above; `self.<attr>` stores are variables (attr_vars) and the run's value is the tuple of the six
+# stored attributes.  Trusted per entry: ONE numpy call / tuple projection each (meanings: end of Model/Screen.v).
+_A2N, _A2Z, _A2I = "(arr2 name)", "(arr2 Z)", "(arr2 (option Z))"
+_TRIPLE, _PAIR = "(list name * list Z * list Z)", "(list name * list Z)"
+_INIT_C01 = dict(
+    file="src/batchie/data.py", cls="Screen", func="__init__", out="SrcScreenIds.v",
+    imports="Generated.Consts Model.Encode Model.Screen Generated.SrcEncode", overload=True,
+    pyparams=["self", "treatment_names", "treatment_doses", "sample_names", "plate_names", "observations", "observation_mask",
+              "control_treatment_name", "treatment_mapping", "sample_mapping"],
+    pydefaults=["None", "None", "''", "None", "None"],
+)
+C01_INIT_CTRL = dict(
+    _INIT_C01, name="src_init_control_name",
+    body_slice=("self.control_treatment_name = control_treatment_name", "self.control_treatment_name = control_treatment_name"),
+    attr_vars={"self.control_treatment_name": "self_control_treatment_name"},
+    params=[("control_treatment_name", "name")], returns="name", vars={"self_control_treatment_name": "name"},
+    implicit_return="{self_control_treatment_name}",
+)
+C01_INIT_IDS = dict(
+    _INIT_C01, name="src_init_ids",
+    body_slice=("treatment_arity = treatment_names.shape[1]", "self._plate_mapping = (unique_plate_names, unique_plate_ids)"),
+    attr_vars={"self.control_treatment_name": "self_control_treatment_name", "self._treatment_mapping": "self_treatment_mapping",
+               "self._treatment_ids": "self_treatment_ids", "self._sample_ids": "self_sample_ids",
+               "self._sample_mapping": "self_sample_mapping", "self._plate_ids": "self_plate_ids",
+               "self._plate_mapping": "self_plate_mapping"},
+    params=[("treatment_names", _A2N), ("treatment_doses", _A2Z), ("sample_names", "list name"), ("plate_names", "list name"),
+            ("treatment_mapping", "opt " + _TMAP_PY), ("sample_mapping", "opt " + _SMAP_PY), ("self_control_treatment_name", "name")],
+    returns="(%s * %s * %s * %s * %s * %s)" % (_TRIPLE, _A2I, _OPTIDS, _PAIR, _OPTIDS, _PAIR),
+    vars={"treatment_arity": "Z", "dose_class_combos": "list (list name * list Z)", "i": "Z", "x": "(list name * list Z)",
+          "all_dose_names": "list name", "all_drug_names": "list Z",
+          "all_dose_class_combos_encoded": _OPTIDS, "unique_treatment_names": "list name", "unique_treatment_doses": "list Z",
+          "unique_treatment_ids": "list Z", "unique_sample_names": "list name", "unique_sample_ids": "list Z",
+          "unique_plate_names": "list name", "unique_plate_ids": "list Z",
+          "self_treatment_mapping": _TRIPLE, "self_treatment_ids": _A2I, "self_sample_ids": _OPTIDS, "self_sample_mapping": _PAIR,
+          "self_plate_ids": _OPTIDS, "self_plate_mapping": _PAIR},
+    prims=[("__a.shape[1]", "arr2_shape1 {a}", "Z", {"a": _A2N}),
+           ("__a[:, __i]", "!arr2_col [] {a} {i}", "list name", {"a": _A2N, "i": "Z"}),
+           ("__a[:, __i]", "!arr2_col 0 {a} {i}", "list Z", {"a": _A2Z, "i": "Z"}),
+           ("__x[0]", "fst {x}", "list name", {"x": "(list name * list Z)"}), ("__x[1]", "snd {x}", "list Z", {"x": "(list name * list Z)"}),
+           ("np.concatenate(__l)", "!np_concat {l}", "list name", {"l": "list list name"}),
+           ("np.concatenate(__l)", "!np_concat {l}", "list Z", {"l": "list list Z"}),
+           ("__m[-1]", "snd {m}", "idarray", {"m": _TMAP_PY}), ("__m[-1]", "snd {m}", "idarray", {"m": _SMAP_PY}),
+           # the three callees run their translations (C01_VALID_IDS, C01_ENCODE_1D above; the default of existing_mapping is
+           # checked there by pydefaults)
+           ("numpy_array_is_0_indexed_integers(__a)", "!src_numpy_array_is_0_indexed_integers {a}", "bool", {"a": "idarray"}),
+           ("encode_1d_array_to_0_indexed_ids(__a, existing_mapping=__m)", "!src_encode_1d_array {a} {m}",
+            "(%s * list name * list Z)" % _OPTIDS, {"a": "list name", "m": "opt " + _SMAP_PY}),
+           ("encode_1d_array_to_0_indexed_ids(__a)", "!src_encode_1d_array {a} None", "(%s * list name * list Z)" % _OPTIDS, {"a": "list name"}),
+           ("np.split(__a, __n)", "!np_split {a} {n}", "list list (option Z)", {"a": _OPTIDS, "n": "Z"}),
+           ("np.vstack(__l)", "!np_vstack {l}", _A2I, {"l": "list list (option Z)"}),
+           ("__a.T", "arr2_T None {a}", _A2I, {"a": _A2I})],
+    kwcalls={"encode_treatment_arrays_to_0_indexed_ids": (
+        "!src_encode_treatment_arrays {treatment_name_arr} {treatment_dose_arr} {control_treatment_name} {existing_mapping}",
+        "(%s * list name * list Z * list Z)" % _OPTIDS,
+        [("treatment_name_arr", "list name", None), ("treatment_dose_arr", "list Z", None),
+         ("control_treatment_name", "name", "[]"), ("existing_mapping", "opt " + _TMAP_PY, "None")])},
+    raises=[("Invalid treatment mapping", 3), ("Invalid sample mapping", 4)],
+    implicit_return="({self_treatment_mapping}, {self_treatment_ids}, {self_sample_ids}, {self_sample_mapping}, {self_plate_ids}, {self_plate_mapping})",
+)
+ALL += [C01_INIT_CTRL, C01_INIT_IDS]
